@@ -37,14 +37,14 @@ def run(ctx):
         if r["violated"] not in ("DirtyCovers", "IndexesAgree"):
             ctx.broken("as-built recovery (Dev_C23_RebuildCleansEarly) should violate DirtyCovers, TLC says %s" % r["violated"])
     binp = ctx.go_build("pinning/pinner/dspinner", ["pinning/pinner/dspinner/zz_verif_C23_test.go"])
-    env = {"C23_HIST": 3 if q else 12, "C23_LEN": 6 if q else 8, "C23_SECOND": 0 if q else 1}
+    env = {"C23_HIST": 3 if q else 8, "C23_LEN": 6 if q else 8, "C23_SECOND": 0 if q else 1}
     recs, out, rc = ctx.go_run(binp, "TestVerifC23", pkg="pinning/pinner/dspinner", mode="record", env=env, timeout=1800)
     if rc != 0 or not recs:
         ctx.broken("record driver died: " + out[-1500:])
         return
     # more records than rebuildIndexes checks between two flushes (50): 100 pins + one cut pin, recovery cut at every write
     big, out, rc = ctx.go_run(binp, "TestVerifC23", pkg="pinning/pinner/dspinner", mode="record",
-                              env={"C23_BIG": 2 if q else 5, "C23_BIGPINS": 100}, timeout=1800)
+                              env={"C23_BIG": 1 if q else 4, "C23_BIGPINS": 100}, timeout=1800)
     if rc != 0 or not big:
         ctx.broken("record driver (big) died: " + out[-1500:])
         return
